@@ -352,11 +352,12 @@ def const(node, env=None):
             return _struct.unpack_from(args[0], bytes(args[1]), *(args[2:]))
         except _struct.error as e:
             raise FoldStructError('struct.error %s' % e)
-    if isinstance(node, ast.Call) and norm(node.func) in ('struct.unpack', 'struct.pack') and not node.keywords and node.args:
+    if isinstance(node, ast.Call) and norm(node.func) in ('struct.unpack', 'struct.pack', 'unpack', 'pack') and not node.keywords and node.args \
+            and norm(node.func) not in (env or {}).get('__funcs__', ()):
         import struct as _struct
         args = [const(a, env) for a in node.args]
         try:
-            if norm(node.func) == 'struct.pack':
+            if norm(node.func).endswith('pack') and not norm(node.func).endswith('unpack'):
                 return _struct.pack(*args)
             return _struct.unpack(args[0], bytes(args[1]))
         except _struct.error as e:
@@ -433,6 +434,14 @@ def fold_block(stmts, env):
                     r = fold_block(hs[0].body, env)
             if r[0] != 'fall':
                 return r
+            continue
+        if isinstance(st, ast.Delete) and all(isinstance(t, ast.Subscript) and isinstance(t.value, ast.Name) and t.value.id in env
+                                              and isinstance(env[t.value.id], (bytearray, list)) for t in st.targets):
+            for t in st.targets:
+                del env[t.value.id][const(t.slice, env) if not isinstance(t.slice, ast.Slice) else slice(
+                    const(t.slice.lower, env) if t.slice.lower is not None else None,
+                    const(t.slice.upper, env) if t.slice.upper is not None else None,
+                    const(t.slice.step, env) if t.slice.step is not None else None)]
             continue
         if isinstance(st, ast.While) and not st.orelse:
             if any(isinstance(x, (ast.Break, ast.Continue)) for x in ast.walk(st)):
